@@ -96,3 +96,37 @@ pub fn bytes_eq(a: &[u8], b: &[u8]) -> bool {
     }
     true
 }
+
+// ---------------------------------------------------------------- exact tractability stubs
+// A symbolic number of `Vec::push` calls makes the capacity symbolic after the first merge point
+// and every later (re)allocation symbolic-sized (CBMC out of memory).  `Vec::new` reserves 8
+// slots (capacity is unobservable) and `Vec::push` writes without growing; a push beyond the
+// reservation FAILS the harness, so nothing is cut.
+pub fn vec_new_cap8<T>() -> Vec<T> {
+    Vec::with_capacity(8)
+}
+pub fn vec_push_nogrow<T, A: std::alloc::Allocator>(v: &mut Vec<T, A>, x: T) {
+    let l = v.len();
+    assert!(l < v.capacity(), "harness shape: push beyond the reserved capacity");
+    unsafe {
+        std::ptr::write(v.as_mut_ptr().add(l), x);
+        v.set_len(l + 1);
+    }
+}
+/// `ptr::copy` (memmove) with a symbolic element count is a symbolic-size copy; exact replacement
+/// by per-element moves in the overlap-safe direction.
+pub unsafe fn ptr_copy_elementwise<T>(src: *const T, dst: *mut T, count: usize) {
+    if (dst as *const T) <= src {
+        let mut i = 0;
+        while i < count {
+            std::ptr::write(dst.add(i), std::ptr::read(src.add(i)));
+            i += 1;
+        }
+    } else {
+        let mut i = count;
+        while i > 0 {
+            i -= 1;
+            std::ptr::write(dst.add(i), std::ptr::read(src.add(i)));
+        }
+    }
+}
